@@ -14,16 +14,16 @@ Proof.
 Qed.
 
 Definition premises (s : state) (evs : list event) : Prop :=
-  c11_ok s evs = true /\ commit_ok s evs = true /\ classified_ok s evs = true.
+  c11_ok s evs = true /\ commit_ok s evs = true /\ classified_ok s evs = true /\ ensured_ok s evs = true.
 
 Lemma premises_cons : forall s e r, premises s (e :: r) ->
   step_ok s e = true /\ forall s', step s e = Some s' -> premises s' r.
 Proof.
-  intros s e r (H1 & H2 & H3).
-  apply all_steps_cons in H1. apply all_steps_cons in H2. apply all_steps_cons in H3.
-  destruct H1 as [A1 B1]. destruct H2 as [A2 B2]. destruct H3 as [A3 B3].
+  intros s e r (H1 & H2 & H3 & H4).
+  apply all_steps_cons in H1. apply all_steps_cons in H2. apply all_steps_cons in H3. apply all_steps_cons in H4.
+  destruct H1 as [A1 B1]. destruct H2 as [A2 B2]. destruct H3 as [A3 B3]. destruct H4 as [A4 B4].
   split.
-  - unfold step_ok. rewrite A1, A2, A3. reflexivity.
+  - unfold step_ok. rewrite A1, A2, A3, A4. reflexivity.
   - intros s' Hs. repeat split; auto.
 Qed.
 
@@ -142,7 +142,7 @@ Proof.
         + destruct Hin as [X|[]]; discriminate.
         + destruct (nth_error (ops s) i) as [o|]; [destruct (opc o)|]; cbn in Hin; try contradiction;
             destruct Hin as [X|[]]; discriminate. }
-  unfold step_ok in Ok. apply andb3 in Ok. destruct Ok as (C1 & C2 & C3).
+  unfold step_ok in Ok. apply andb_true_iff in Ok. destruct Ok as [Ok C4]. apply andb3 in Ok. destruct Ok as (C1 & C2 & C3).
   pose proof (i_glob _ I) as G.
   destruct e; cbn in T; try discriminate; cbn [lin_point]; unfold step in Hs; cbn [ev_op is_cl_event] in Hs.
   - (* EvExecSrc *)
@@ -436,10 +436,11 @@ Qed.
 Theorem linearizable : forall s0 evs st,
   wf_init s0 -> run (init s0) evs = Some st ->
   c11_ok (init s0) evs = true -> commit_ok (init s0) evs = true -> classified_ok (init s0) evs = true ->
+  ensured_ok (init s0) evs = true ->
   exists lin, is_linearization lin (client_history (history (init s0) evs)) /\
               register_spec (val s0) lin = Some (L (gl st)).
 Proof.
-  intros s0 evs st W R P1 P2 P3. exists (history (init s0) evs). split.
+  intros s0 evs st W R P1 P2 P3 P4. exists (history (init s0) evs). split.
   - split; [reflexivity|]. apply (run_bracketed evs (init s0) st R).
   - assert (E : val s0 = L (gl (init s0))) by reflexivity. rewrite E.
     apply run_register_spec; auto. apply inv_init; auto. repeat split; auto.
@@ -464,13 +465,14 @@ Qed.
 Theorem final_state : forall s0 evs st,
   wf_init s0 -> run (init s0) evs = Some st ->
   c11_ok (init s0) evs = true -> commit_ok (init s0) evs = true -> classified_ok (init s0) evs = true ->
+  ensured_ok (init s0) evs = true ->
   is_passed (scan (gl st)) = true -> committed (gl st) = true -> quiescent st = true ->
   src (gl st) = None /\
   register_spec (val s0) (history (init s0) evs) = Some (val (dst (gl st))) /\
   val (dst (gl st)) = final_value (val s0) (history (init s0) evs) /\
   (forall i k r, In (HLin i k r) (history (init s0) evs) -> In (HRep i (ROk r)) (history (init s0) evs)).
 Proof.
-  intros s0 evs st W R P1 P2 P3 Hp Hc Hq.
+  intros s0 evs st W R P1 P2 P3 P4 Hp Hc Hq.
   assert (I : Inv st) by (eapply reachable_inv; eauto; repeat split; auto).
   assert (S : src (gl st) = None).
   { apply (g_spassed _ (i_glob _ I)). destruct (scan (gl st)); cbn in Hp; congruence. }
@@ -485,6 +487,7 @@ Qed.
 Theorem ttl_preserved : forall s0 evs s e s',
   wf_init s0 -> run (init s0) evs = Some s ->
   c11_ok (init s0) evs = true -> commit_ok (init s0) evs = true -> classified_ok (init s0) evs = true ->
+  ensured_ok (init s0) evs = true ->
   is_transfer e = true -> step s e = Some s' ->
   match dst (gl s) with
   | Some _ => dst (gl s') = dst (gl s)
@@ -492,7 +495,7 @@ Theorem ttl_preserved : forall s0 evs s e s',
                           forall key, restore_cmd key (Entry p raw) = Some [RESTORE; key; ttl_restore p; raw]
   end.
 Proof.
-  intros s0 evs s e s' W R P1 P2 P3 T Hs.
+  intros s0 evs s e s' W R P1 P2 P3 P4 T Hs.
   assert (I : Inv s) by (eapply reachable_inv; eauto; repeat split; auto).
   pose proof (i_glob _ I) as G.
   assert (K : forall raw t,
@@ -523,7 +526,7 @@ Qed.
 Theorem run_step_simulation : forall s0 evs1 e s s',
   wf_init s0 -> run (init s0) evs1 = Some s -> step s e = Some s' ->
   c11_ok (init s0) (evs1 ++ [e]) = true -> commit_ok (init s0) (evs1 ++ [e]) = true ->
-  classified_ok (init s0) (evs1 ++ [e]) = true ->
+  classified_ok (init s0) (evs1 ++ [e]) = true -> ensured_ok (init s0) (evs1 ++ [e]) = true ->
   match lin_point e with
   | Some i => exists o, nth_error (ops s) i = Some o /\
                 hist_step s e = [HLin i (ckind (ocmd o)) (L (gl s))] /\
@@ -532,15 +535,16 @@ Theorem run_step_simulation : forall s0 evs1 e s s',
   | None => L (gl s') = L (gl s) /\ (forall i k r, ~ In (HLin i k r) (hist_step s e))
   end.
 Proof.
-  intros s0 evs1 e s s' W R Hs P1 P2 P3.
+  intros s0 evs1 e s s' W R Hs P1 P2 P3 P4.
   assert (X : forall evs a b, run a evs = Some b -> premises a (evs ++ [e]) -> premises a evs /\ step_ok b e = true).
   { induction evs as [|x r IH]; intros a b Hr P; cbn in Hr.
     - inversion Hr; subst. cbn [app] in P. apply premises_cons in P. destruct P as [Ok _]. split; auto.
       repeat split; reflexivity.
     - destruct (step a x) as [a1|] eqn:Ea; [|discriminate]. cbn [app] in P. apply premises_cons in P.
       destruct P as [Ok P]. destruct (IH _ _ Hr (P _ Ea)) as [Q1 Q2]. split; auto.
-      unfold step_ok in Ok. apply andb3 in Ok. destruct Ok as (A1 & A2 & A3). destruct Q1 as (B1 & B2 & B3).
-      repeat split; cbn; rewrite Ea; rewrite ?A1, ?A2, ?A3; auto. }
-  destruct (X _ _ _ R (conj P1 (conj P2 P3))) as [Q1 Q2].
+      unfold step_ok in Ok. apply andb_true_iff in Ok. destruct Ok as [Ok A4]. apply andb3 in Ok.
+      destruct Ok as (A1 & A2 & A3). destruct Q1 as (B1 & B2 & B3 & B4).
+      repeat split; cbn; rewrite Ea; rewrite ?A1, ?A2, ?A3, ?A4; auto. }
+  destruct (X _ _ _ R (conj P1 (conj P2 (conj P3 P4)))) as [Q1 Q2].
   apply step_simulation; auto. eapply reachable_inv; eauto.
 Qed.
